@@ -4,8 +4,9 @@
 # full suite passes with it), then runs the given checks (default: all) against the changed tree.
 set -u
 dir=$(readlink -f "$1"); shift
+V=${VERIF_HOME:-/verif}   # a frozen copy of /verif may be used so that rules can be edited while seeds are evaluated
 ids="$*"
-[ -z "$ids" ] && ids=$(python3 -c "import json; print(' '.join(c['property_id'] for c in json.load(open('/verif/MANIFEST.json'))['checks']))")
+[ -z "$ids" ] && ids=$(python3 -c "import json; print(' '.join(c['property_id'] for c in json.load(open('$V/MANIFEST.json'))['checks']))")
 W=$(mktemp -d /tmp/seedwt.XXXXXX); rmdir "$W"
 git -C /repo worktree add -q "$W" HEAD || exit 3
 export CARGO_NET_OFFLINE=true
@@ -22,7 +23,7 @@ rm "$W/tests/seed_demo.rs"
 echo "existing suite with change: rc=$rc_suite (expect 0) $(grep -c '^test result: ok' "$W/suite.log") ok-groups, $(grep -E '^test result' "$W/suite.log" | tr '\n' ' ' | cut -c1-200)" | tee -a "$res"
 caught=""
 for id in $ids; do
-  out=$(VERIF_REPO="$W" /verif/check "$id" 2>&1); rc=$?
+  out=$(VERIF_REPO="$W" $V/check "$id" 2>&1); rc=$?
   if [ $rc -ne 0 ]; then caught="$caught $id"; echo "--- $id reports:" >> "$res"; echo "$out" | grep -E "rule=|^  [a-zA-Z]" | cut -c1-400 | head -12 >> "$res"; fi
 done
 echo "checks that report a violation:${caught:- NONE}" | tee -a "$res"
